@@ -266,7 +266,8 @@ def edit_distance(pinned: list[str], current: list[str]) -> int:
 #   and x ** 2 / np.square(x) → x.square();  `if not c: A else: B` / `if a != b: A else: B` → the positive test with swapped arms (also for conditional
 #   expressions);  a local bound once and used once, in the very next statement, is substituted into that statement (named intermediate ≡ inline).
 _TO_METHOD = {"sum", "mean", "abs", "sqrt", "exp", "conj", "angle", "square", "max", "min", "prod", "clip", "clamp", "round", "floor", "ceil", "flatten", "ravel", "reshape",
-              "argmax", "argmin", "argsort", "cumsum", "all", "any", "std", "var", "transpose", "squeeze", "unsqueeze"}
+              "argmax", "argmin", "argsort", "cumsum", "all", "any", "std", "var", "transpose", "squeeze", "unsqueeze", "cos", "sin", "tan", "log", "log1p", "expm1", "roll", "flip",
+              "real", "imag", "clone", "detach", "sign", "sgn", "floor_divide", "remainder", "nonzero", "cumprod", "amax", "amin", "isfinite", "isnan"}
 _LIB_PREFIXES = ("np.", "numpy.", "torch.", "xp.", "cp.")
 
 
@@ -544,6 +545,178 @@ class _Canon(ast.NodeTransformer):
             i += 1
         return out
 
+    # ------------------------------------------------------------------ statement-level synonyms
+    @staticmethod
+    def _terminates(body):
+        return bool(body) and isinstance(body[-1], (ast.Return, ast.Raise, ast.Continue, ast.Break))
+
+    def _neg(self, t):
+        """canonical negation of a test"""
+        flip = {ast.Is: ast.IsNot, ast.IsNot: ast.Is, ast.In: ast.NotIn, ast.NotIn: ast.In, ast.Eq: ast.NotEq, ast.NotEq: ast.Eq}
+        if isinstance(t, ast.UnaryOp) and isinstance(t.op, ast.Not):
+            return t.operand
+        if isinstance(t, ast.Compare) and len(t.ops) == 1 and type(t.ops[0]) in flip:
+            return ast.Compare(left=t.left, ops=[flip[type(t.ops[0])]()], comparators=t.comparators)
+        return ast.UnaryOp(op=ast.Not(), operand=t)
+
+    def _block(self, body: list, fn_loads_after) -> list:
+        """One block, already canonical inside.  Each rewrite is an equivalence of Python programs under the stated condition."""
+        out = []
+        for st in body:
+            # (a) if c: t = a  else: t = b   ≡   t = a if c else b        (both arms a single assignment to the same plain name)
+            if isinstance(st, ast.If) and len(st.body) == 1 and len(st.orelse) == 1 and all(
+                    isinstance(x, ast.Assign) and len(x.targets) == 1 and isinstance(x.targets[0], ast.Name) for x in (st.body[0], st.orelse[0])) \
+                    and st.body[0].targets[0].id == st.orelse[0].targets[0].id:
+                st = ast.Assign(targets=[ast.Name(id=st.body[0].targets[0].id, ctx=ast.Store())],
+                                value=ast.IfExp(test=st.test, body=st.body[0].value, orelse=st.orelse[0].value), lineno=st.lineno)
+            # (a') if c: return a  else: return b   ≡   return a if c else b ; also `if c: return a` followed by `return b` (handled after (f))
+            # (g1) if a: (if b: X)  ≡  if a and b: X        (no else on either)
+            while isinstance(st, ast.If) and not st.orelse and len(st.body) == 1 and isinstance(st.body[0], ast.If) and not st.body[0].orelse:
+                inner = st.body[0]
+                vals = (st.test.values if isinstance(st.test, ast.BoolOp) and isinstance(st.test.op, ast.And) else [st.test]) + \
+                       (inner.test.values if isinstance(inner.test, ast.BoolOp) and isinstance(inner.test.op, ast.And) else [inner.test])
+                st = ast.If(test=ast.BoolOp(op=ast.And(), values=list(vals)), body=inner.body, orelse=[], lineno=st.lineno)
+            # (g2) if a: X  elif b: X   ≡   if a or b: X           (identical arms; same short-circuit order)
+            while isinstance(st, ast.If) and len(st.orelse) == 1 and isinstance(st.orelse[0], ast.If) and \
+                    [ast.dump(x) for x in st.body] == [ast.dump(x) for x in st.orelse[0].body]:
+                nxt = st.orelse[0]
+                vals = (st.test.values if isinstance(st.test, ast.BoolOp) and isinstance(st.test.op, ast.Or) else [st.test]) + \
+                       (nxt.test.values if isinstance(nxt.test, ast.BoolOp) and isinstance(nxt.test.op, ast.Or) else [nxt.test])
+                st = ast.If(test=ast.BoolOp(op=ast.Or(), values=list(vals)), body=st.body, orelse=nxt.orelse, lineno=st.lineno)
+            # (f) an arm that always leaves (return / raise / continue / break) makes `else` redundant: the other arm follows the statement
+            if isinstance(st, ast.If) and st.orelse:
+                if self._terminates(st.body):
+                    out.append(ast.If(test=st.test, body=st.body, orelse=[], lineno=st.lineno))
+                    out.extend(self._block(st.orelse, fn_loads_after))
+                    continue
+                if self._terminates(st.orelse):
+                    out.append(ast.If(test=self._neg(st.test), body=st.orelse, orelse=[], lineno=st.lineno))
+                    out.extend(self._block(st.body, fn_loads_after))
+                    continue
+            # (b) a, b = x, y  ≡  a = x; b = y     when no right-hand side after the first reads an earlier target (plain names only)
+            #     targets: plain names, or PRIVATE attributes of a plain name (`self._fields`: a plain slot by the repository's convention, no property setter)
+            def _tgt_ok(t):
+                return isinstance(t, ast.Name) or (isinstance(t, ast.Attribute) and isinstance(t.value, ast.Name) and t.attr.startswith("_") and not t.attr.startswith("__"))
+            if isinstance(st, ast.Assign) and len(st.targets) == 1 and isinstance(st.targets[0], ast.Tuple) and isinstance(st.value, ast.Tuple) \
+                    and len(st.targets[0].elts) == len(st.value.elts) and all(_tgt_ok(t) for t in st.targets[0].elts):
+                names = [_dotted(t) for t in st.targets[0].elts]
+
+                def _reads(v, nm):
+                    return any((_dotted(x) == nm) for x in ast.walk(v) if isinstance(x, (ast.Name, ast.Attribute))) or \
+                        ("." in nm and any(isinstance(x, ast.Call) for x in ast.walk(v)) and any(isinstance(x, ast.Name) and x.id == nm.split(".")[0] for x in ast.walk(v))
+                         and any(isinstance(x, ast.Call) and isinstance(x.func, ast.Attribute) and _dotted(x.func.value) == nm.split(".")[0] for x in ast.walk(v)))
+                indep = all(not any(_reads(v, nm) for nm in names[:k]) for k, v in enumerate(st.value.elts))
+                if indep and len(set(names)) == len(names):
+                    for t, v in zip(st.targets[0].elts, st.value.elts):
+                        t2 = clone(t)
+                        out.append(ast.Assign(targets=[t2], value=v, lineno=st.lineno))
+                    continue
+            # (c) for j in range(len(s)): x = s[j]; …   ≡   for x in s: …  /  for j, x in enumerate(s): …      (s a name that the body does not rebind)
+            if isinstance(st, ast.For) and not st.orelse and isinstance(st.target, ast.Name) and isinstance(st.iter, ast.Call) and _dotted(st.iter.func) == "range" \
+                    and len(st.iter.args) == 1 and isinstance(st.iter.args[0], ast.Call) and _dotted(st.iter.args[0].func) == "len" and len(st.iter.args[0].args) == 1 \
+                    and _dotted(st.iter.args[0].args[0]) and st.body and isinstance(st.body[0], ast.Assign) and len(st.body[0].targets) == 1 \
+                    and isinstance(st.body[0].targets[0], ast.Name) and isinstance(st.body[0].value, ast.Subscript) \
+                    and ast.dump(st.body[0].value.value) == ast.dump(st.iter.args[0].args[0]) and isinstance(st.body[0].value.slice, ast.Name) \
+                    and st.body[0].value.slice.id == st.target.id:
+                j, x, seq = st.target.id, st.body[0].targets[0].id, st.iter.args[0].args[0]
+                rest = st.body[1:] or [ast.Pass()]
+                root = _dotted(seq).split(".")[0]
+                rebinds = any(isinstance(y, ast.Name) and y.id in (root, x, j) and isinstance(y.ctx, ast.Store) for z in rest for y in ast.walk(z))
+                if not rebinds:
+                    j_used = any(isinstance(y, ast.Name) and y.id == j for z in rest for y in ast.walk(z))
+                    if j_used:
+                        tgt = ast.Tuple(elts=[ast.Name(id=j, ctx=ast.Store()), ast.Name(id=x, ctx=ast.Store())], ctx=ast.Store())
+                        it = ast.Call(func=ast.Name(id="enumerate", ctx=ast.Load()), args=[seq], keywords=[])
+                    else:
+                        tgt, it = ast.Name(id=x, ctx=ast.Store()), seq
+                    st = ast.For(target=tgt, iter=it, body=rest, orelse=[], lineno=st.lineno)
+            # (e) xs = []; for v in it: [if c:] xs.append(e)   ≡   xs = [e for v in it if c]
+            if isinstance(st, ast.For) and not st.orelse and out and isinstance(out[-1], ast.Assign) and len(out[-1].targets) == 1 and isinstance(out[-1].targets[0], ast.Name) \
+                    and isinstance(out[-1].value, ast.List) and not out[-1].value.elts and len(st.body) == 1:
+                acc = out[-1].targets[0].id
+                inner, cond = st.body[0], None
+                if isinstance(inner, ast.If) and not inner.orelse and len(inner.body) == 1:
+                    inner, cond = inner.body[0], inner.test
+                if isinstance(inner, ast.Expr) and isinstance(inner.value, ast.Call) and isinstance(inner.value.func, ast.Attribute) and inner.value.func.attr == "append" \
+                        and isinstance(inner.value.func.value, ast.Name) and inner.value.func.value.id == acc and len(inner.value.args) == 1 and not inner.value.keywords \
+                        and not any(isinstance(y, ast.Name) and y.id == acc for y in ast.walk(inner.value.args[0])) \
+                        and not any(isinstance(y, ast.Name) and y.id == acc for y in ast.walk(st.iter)) \
+                        and not (cond is not None and any(isinstance(y, ast.Name) and y.id == acc for y in ast.walk(cond))):
+                    tnames = {y.id for y in ast.walk(st.target) if isinstance(y, ast.Name)}
+                    if not (tnames & fn_loads_after(st)):
+                        out[-1] = ast.Assign(targets=[ast.Name(id=acc, ctx=ast.Store())],
+                                             value=ast.ListComp(elt=inner.value.args[0], generators=[ast.comprehension(target=st.target, iter=st.iter, ifs=[cond] if cond is not None else [], is_async=0)]),
+                                             lineno=out[-1].lineno)
+                        continue
+            out.append(st)
+        # (i) two adjacent assignments of call-free expressions to different plain names, neither reading the other's target, commute: order by target name
+        def _simple(x):
+            return isinstance(x, ast.Assign) and len(x.targets) == 1 and isinstance(x.targets[0], ast.Name) and all(isinstance(y, self._PURE) for y in ast.walk(x.value))
+        changed = True
+        while changed:
+            changed = False
+            for i in range(len(out) - 1):
+                a, b = out[i], out[i + 1]
+                if _simple(a) and _simple(b) and a.targets[0].id > b.targets[0].id:
+                    ra = {y.id for y in ast.walk(a.value) if isinstance(y, ast.Name)}
+                    rb = {y.id for y in ast.walk(b.value) if isinstance(y, ast.Name)}
+                    if a.targets[0].id not in rb and b.targets[0].id not in ra:
+                        out[i], out[i + 1] = b, a
+                        changed = True
+        # (a'') if c: return a ; return b  ≡  return a if c else b
+        i = 0
+        while i + 1 < len(out):
+            a, b = out[i], out[i + 1]
+            if isinstance(a, ast.If) and not a.orelse and len(a.body) == 1 and isinstance(a.body[0], ast.Return) and a.body[0].value is not None \
+                    and isinstance(b, ast.Return) and b.value is not None:
+                out[i:i + 2] = [ast.Return(value=ast.IfExp(test=a.test, body=a.body[0].value, orelse=b.value), lineno=a.lineno)]
+                continue
+            i += 1
+        return out
+
+    def struct_pass(self, node):
+        """bottom-up over every statement block"""
+        loads = [(x.id, getattr(x, "lineno", 0)) for x in ast.walk(node) if isinstance(x, ast.Name) and isinstance(x.ctx, ast.Load)]
+        stores = [(x.id, getattr(x, "lineno", 0)) for x in ast.walk(node) if isinstance(x, ast.Name) and isinstance(x.ctx, ast.Store)]
+
+        def loads_after(loop):
+            """names read after the loop ends without an intervening rebinding (a comprehension would not leave them bound)"""
+            end = getattr(loop, "end_lineno", None) or max((getattr(y, "lineno", 0) for y in ast.walk(loop)), default=0)
+            out = set()
+            for nm, ln in loads:
+                if ln > end and not any(n2 == nm and end < l2 <= ln for n2, l2 in stores):
+                    out.add(nm)
+            return out
+
+        def rec(n):
+            for fld in ("body", "orelse", "finalbody"):
+                blk = getattr(n, fld, None)
+                if isinstance(blk, list) and blk and isinstance(blk[0], ast.stmt):
+                    for ch in blk:
+                        rec(ch)
+                    setattr(n, fld, self._block(blk, loads_after) or [ast.Pass()])
+            for h in getattr(n, "handlers", []) or []:
+                rec(h)
+        rec(node)
+        return node
+
+    def visit_DictComp(self, n):
+        self.generic_visit(n)
+        # {k: v for k, v in zip(a, b)}  ≡  dict(zip(a, b))
+        if len(n.generators) == 1 and not n.generators[0].ifs and isinstance(n.generators[0].target, ast.Tuple) and len(n.generators[0].target.elts) == 2 \
+                and all(isinstance(t, ast.Name) for t in n.generators[0].target.elts) and isinstance(n.key, ast.Name) and isinstance(n.value, ast.Name) \
+                and (n.key.id, n.value.id) == tuple(t.id for t in n.generators[0].target.elts) \
+                and isinstance(n.generators[0].iter, ast.Call) and _dotted(n.generators[0].iter.func) == "zip":
+            return ast.Call(func=ast.Name(id="dict", ctx=ast.Load()), args=[n.generators[0].iter], keywords=[])
+        return n
+
+    def visit_List(self, n):
+        self.generic_visit(n)
+        # [*x]  ≡  list(x)
+        if len(n.elts) == 1 and isinstance(n.elts[0], ast.Starred) and isinstance(n.ctx, ast.Load):
+            return ast.Call(func=ast.Name(id="list", ctx=ast.Load()), args=[n.elts[0].value], keywords=[])
+        return n
+
     def inline_pass(self, node):
         """first pass: substitute single-use temporaries everywhere (before operands are ordered)"""
         for sub in ast.walk(node):
@@ -568,12 +741,21 @@ def canon_digest(fn: ast.AST) -> str:
     isfn = isinstance(cp, (ast.FunctionDef, ast.AsyncFunctionDef))
     params = {a.arg for a in ast.walk(cp) if isinstance(a, ast.arg)}
     cn.single_use = {n for n in locals_of(cp) if stores[n] == 1 and loads[n] == 1} if isfn else set()
-    cn.shared = {n for n in locals_of(cp) if stores[n] == 1 and loads[n] >= 2 and n not in params} if isfn else set()
+    cn.shared = {n for n in locals_of(cp) if stores[n] == 1 and loads[n] >= 1 and n not in params} if isfn else set()
     cn.loads = loads
     cn.numeric = _array_names(cp)
+    if isfn:
+        cp = cn.struct_pass(cp)
+        stores = Counter(x.id for x in ast.walk(cp) if isinstance(x, ast.Name) and isinstance(x.ctx, (ast.Store, ast.Del)))
+        loads = Counter(x.id for x in ast.walk(cp) if isinstance(x, ast.Name) and isinstance(x.ctx, ast.Load))
+        cn.single_use = {n for n in locals_of(cp) if stores[n] == 1 and loads[n] == 1}
+        cn.shared = {n for n in locals_of(cp) if stores[n] == 1 and loads[n] >= 1 and n not in params}
+        cn.loads = loads
     if cn.single_use or cn.shared:
         cp = cn.inline_pass(cp)
     c = cn.visit(cp)
+    if isfn:
+        c = cn.struct_pass(c)        # once more: flips / merges done by the expression pass can enable a statement rewrite
     ast.fix_missing_locations(c)
     return shape_of(c)[0]
 
